@@ -1,8 +1,15 @@
 """Per-property configuration of ./check: Lean modules to rebuild, property theorems to audit."""
 
+HOOK_COMMITS = ["3cf3453", "b6342e8", "9141494", "43bebf2"]
+
+NOT_APPLICABLE = {}
+
 PROPS = {
     "C02": {
         "id": "C02",
+        "level_text": "Lean theorems (all dictionary sizes, all values < 2^63): LZIP header byte announces the smallest representable dictionary >= the encoder's (lzipDict), XZ multibyte integers round-trip with the predicted size (multibyte_rt), LZMA2 dictionary property is minimal and sufficient (lzma2DictProp); witness theorem against the pinned rounding. The model functions are tied to the code by running both on the same requests on every check; block/member splitting, filter chains and the payload codec are covered by the round-trip oracle on the real writers/readers (search component), their theorems are growth items.",
+        "level_note": "Trusted: Lean kernel (axioms propext, Classical.choice, Quot.sound only), the hand-written models of encode_dict_size/decode_dict_size/multibyte integers/LZMA2 dictionary property (correspondence sampled: all 256 header bytes, all property boundaries, random values), tools/extract_consts.py, harness.",
+        "technique": "Lean 4 proof + differential correspondence (lzdriver vs hooks) + round-trip oracle",
         "lean_modules": ["LzmaVerif.Props.C02"],
         "theorems": [
             "LzmaVerif.Props.C02.lzipDict",
@@ -13,5 +20,25 @@ PROPS = {
         ],
         "trusted_base": [],
         "assumptions": [],
+    },
+    "C10": {
+        "id": "C10",
+        "engine": "vhmt",
+        "level_text": "Lean theorems over a labelled transition system of the work queue (coordinator pushing n units then closing, k workers looping on steal), for ALL n, k and ALL schedules: every terminal state has all workers exited (drop_releases_all_threads), every schedule is at most 10n+8k+5 steps long (every_schedule_is_finite), the worker count is clamped to [1,256]; witness schedule against the pinned close(). The model is tied to the code by a translator: the order of synchronisation operations of push/close/steal is re-extracted from src/work_queue.rs on every run and skeleton_matches is re-proved against it. The real MT readers/writers are additionally run under shuttle (random + PCT schedulers) with drops at several points; shuttle reports any execution in which a thread stays blocked.",
+        "level_note": "Trusted: Lean kernel; tools/extract_sync.py (pattern-based, ~100 lines); the LTS is a hand transcription of the extracted skeleton (atomicity of push_back+unlock merged); sequential consistency (weak-memory behaviours are outside both the model and shuttle); the mpsc result channel and Drop glue are covered by the shuttle search only.",
+        "technique": "Lean 4 proof (inductive invariant + termination measure over an LTS) + source-skeleton translator + shuttle schedule exploration",
+        "lean_modules": ["LzmaVerif.Props.C10"],
+        "theorems": [
+            "LzmaVerif.Props.C10.skeleton_matches",
+            "LzmaVerif.Props.C10.drop_releases_all_threads",
+            "LzmaVerif.Props.C10.every_schedule_is_finite",
+            "LzmaVerif.Props.C10.pinned_close_loses_wakeup",
+            "LzmaVerif.Props.C10.worker_bound",
+        ],
+        "trusted_base": [
+            "tools/extract_sync.py: translator of the synchronisation skeleton of work_queue.rs (regenerated on every run; skeleton_matches is re-proved against it)",
+            "shuttle 0.9 runtime (sequentially consistent schedules only) for the search component",
+        ],
+        "assumptions": ["sequential consistency of the mutex/condvar/atomic operations (shuttle and the Lean LTS both assume it)"],
     },
 }
